@@ -14,6 +14,7 @@ model is shown in the Figure below.
 """
 
 import math
+import operator
 from numbers import Number
 from typing import Iterable, List, Optional, Tuple, TypeVar, Union, cast
 
@@ -1490,7 +1491,9 @@ class MultiUserChannelMatrix:  # pylint: disable=R0902
         np.ndarray
         """
         # $$\mtQ k = \sum_{j=1, j \neq k}^{K} \frac{P_j}{Ns_j} \mtH_{kj} \mtF_j \mtF_j^H \mtH_{kj}^H$$
-        interfering_users = set(range(self.K)) - {k}
+        # `k` can be any integer: python int, numpy integer or a
+        # 0-dimensional integer array (which is not hashable)
+        interfering_users = set(range(self.K)) - {operator.index(k)}
         Qk = np.zeros([self.Nr[k], self.Nr[k]], dtype=complex)
 
         for l in interfering_users:
@@ -1561,7 +1564,9 @@ class MultiUserChannelMatrix:  # pylint: disable=R0902
             The interference covariance matrix (without any noise).
         """
         # $$\mtQ k = \sum_{j=1, j \neq k}^{K} \frac{P_j}{Ns_j} \mtH_{k} \mtF_j \mtF_j^H \mtH_{k}^H$$
-        interfering_users = set(range(self.K)) - {k}
+        # `k` can be any integer: python int, numpy integer or a
+        # 0-dimensional integer array (which is not hashable)
+        interfering_users = set(range(self.K)) - {operator.index(k)}
         Qk = np.zeros([self.Nr[k], self.Nr[k]], dtype=complex)
 
         for l in interfering_users:
@@ -2776,7 +2781,9 @@ class MultiUserChannelMatrixExtInt(  # pylint: disable=R0904
         calc_JP_Q
         """
         # $$\mtQ k = \sum_{j=1, j \neq k}^{K} \frac{P_j}{Ns_j} \mtH_{k} \mtF_j \mtF_j^H \mtH_{k}^H$$
-        interfering_users = set(range(self.K)) - {k}
+        # `k` can be any integer: python int, numpy integer or a
+        # 0-dimensional integer array (which is not hashable)
+        interfering_users = set(range(self.K)) - {operator.index(k)}
         Qk = np.zeros([self.Nr[k], self.Nr[k]], dtype=complex)
 
         for l in interfering_users:
